@@ -105,6 +105,102 @@ def rpr_noise(rng, present=(), rich=0.5):
     return out
 
 
+# ---- content controls (w:sdt) -------------------------------------------------------------------------------------
+# A content control is legal at four levels: around runs (CT_SdtRun), around blocks (CT_SdtBlock), around table ROWS
+# (w:tbl > w:sdt > w:sdtContent > w:tr, CT_SdtRow) and around table CELLS (w:tr > w:sdt > w:sdtContent > w:tc, CT_SdtCell; Word
+# writes it whenever a control is inserted with a whole cell selected - forms laid out as tables).  Its w:sdtPr holds up to
+# twenty kinds of children; the reader looks for one of them (w14:checkbox).  None of the others - in particular not
+# w:showingPlcHdr ("the content is the placeholder prompt") - changes what the content IS.
+W15 = "{http://schemas.microsoft.com/office/word/2012/wordml}"
+ONOFF_ATTRS = [[], [], [("w:val", "1")], [("w:val", "true")], [("w:val", "on")], [("w:val", "0")], [("w:val", "false")]]
+
+
+def sdt_checkbox(rng):
+    """w14:checkbox as Word writes it (checked state + the two glyphs), or parts of it"""
+    cb = []
+    if rng.random() < 0.7:
+        cb.append(el("wordml:checked", [("wordml:val", rng.choice(["0", "1", "true", "false"]))] if rng.random() < 0.8 else []))
+    if rng.random() < 0.4:
+        cb.append(el("wordml:checkedState", [("wordml:val", "2612"), ("wordml:font", "MS Gothic")]))
+        cb.append(el("wordml:uncheckedState", [("wordml:val", "2610"), ("wordml:font", "MS Gothic")]))
+    return el("wordml:checkbox", [], cb)
+
+
+def sdt_pr(rng, checkbox=0.0, placeholder=0.35):
+    """the children of a w:sdtPr as authoring tools write them: run properties of the control, alias / tag / id / lock, the
+    placeholder reference and the w:showingPlcHdr flag (every on/off spelling), w:temporary, data binding, and at most one
+    kind element (text, rich text, combo box / drop-down with list items, date, picture, building-block gallery, group,
+    repeating section ...; with probability `checkbox` the w14:checkbox kind)."""
+    ch = []
+    if rng.random() < 0.3:
+        ch.append(el("w:rPr", [], [el(rng.choice(["w:b", "w:i", "w:vanish"]))] + ([el("w:rStyle", [("w:val", "PlaceholderText")])] if rng.random() < 0.5 else [])))
+    if rng.random() < 0.5:
+        ch.append(el("w:alias", [("w:val", rng.choice(["x", "Name", "a <b>", ""]))]))
+    if rng.random() < 0.4:
+        ch.append(el("w:tag", [("w:val", rng.choice(["t", "field_1", ""]))]))
+    if rng.random() < 0.5:
+        ch.append(el("w:id", [("w:val", str(rng.randrange(-2 ** 31, 2 ** 31)))]))
+    if rng.random() < 0.2:
+        ch.append(el("w:lock", [("w:val", rng.choice(["sdtLocked", "contentLocked", "sdtContentLocked", "unlocked"]))]))
+    if rng.random() < placeholder:
+        if rng.random() < 0.7:
+            ch.append(el("w:placeholder", [], [el("w:docPart", [("w:val", "DefaultPlaceholder_-1854013440")])]))
+        ch.append(el("w:showingPlcHdr", rng.choice(ONOFF_ATTRS)))
+    if rng.random() < 0.1:
+        ch.append(el("w:temporary", rng.choice(ONOFF_ATTRS)))
+    if rng.random() < 0.15:
+        ch.append(el("w:dataBinding", [("w:prefixMappings", "xmlns:ns0='urn:x'"), ("w:xpath", "/ns0:a[1]/ns0:b[1]"), ("w:storeItemID", "{0}")]))
+    if rng.random() < 0.1:
+        ch.append(el(W15 + "appearance", [(W15 + "val", rng.choice(["hidden", "tags", "boundingBox"]))]))
+    if rng.random() < checkbox:
+        ch.append(sdt_checkbox(rng))
+    elif rng.random() < 0.6:
+        items = [el("w:listItem", [("w:displayText", t), ("w:value", t)]) for t in ("Yes", "No") if rng.random() < 0.7]
+        ch.append(rng.choice([
+            el("w:text", [("w:multiLine", "1")] if rng.random() < 0.3 else []), el("w:richText"), el("w:comboBox", [], items), el("w:dropDownList", [("w:lastValue", "No")], items),
+            el("w:date", [("w:fullDate", "2024-02-29T00:00:00Z")], [el("w:dateFormat", [("w:val", "dd/MM/yyyy")]), el("w:lid", [("w:val", "en-GB")]),
+                                                                     el("w:storeMappedDataAs", [("w:val", "dateTime")]), el("w:calendar", [("w:val", "gregorian")])]),
+            el("w:picture"), el("w:docPartObj", [], [el("w:docPartGallery", [("w:val", "Table of Contents")]), el("w:docPartUnique")]), el("w:docPartList"),
+            el("w:group"), el("w:equation"), el("w:citation"), el("w:bibliography"), el(W15 + "repeatingSection"), el(W15 + "repeatingSectionItem"),
+            el("wordml:entityPicker")]))
+    rng.shuffle(ch)
+    return el("w:sdtPr", [], ch)
+
+
+def sdt_around(rng, nodes, checkbox=0.0, placeholder=0.35):
+    """one w:sdt whose w:sdtContent holds `nodes` (cells, rows, blocks or runs alike), with or without w:sdtPr / w:sdtEndPr"""
+    ch = []
+    if rng.random() < 0.85:
+        ch.append(sdt_pr(rng, checkbox, placeholder))
+    if rng.random() < 0.2:
+        ch.append(el("w:sdtEndPr", [], [el("w:rPr", [], [el("w:b")])] if rng.random() < 0.5 else []))
+    ch.append(el("w:sdtContent", [], list(nodes)))
+    return el("w:sdt", [], ch)
+
+
+def sdt_wrap_some(rng, nodes, p, checkbox=0.0, placeholder=0.35, hits=None):
+    """the list `nodes` (the cells of a row, the rows of a table) with some members moved into content controls: one control
+    per member, one control around two or three neighbours, now and then a control inside a control"""
+    out = []
+    i = 0
+    while i < len(nodes):
+        if rng.random() >= p:
+            out.append(nodes[i])
+            i += 1
+            continue
+        k = 1
+        while i + k < len(nodes) and k < 3 and rng.random() < 0.25:
+            k += 1
+        w = sdt_around(rng, nodes[i:i + k], checkbox, placeholder)
+        if rng.random() < 0.12:
+            w = sdt_around(rng, [w], 0.0, placeholder)
+        if hits is not None:
+            hits.append(w)
+        out.append(w)
+        i += k
+    return out
+
+
 class Profile(dict):
     """feature weights; missing keys default to the general profile"""
     DEFAULT = dict(
@@ -364,6 +460,18 @@ class DocGen:
             # optional profile key: only pictures that every browser shows (png, gif, jpeg), declared as such
             ext = rng.choice(["png", "gif", "jpg", "jpeg"])
         name = "media/image%d.%s" % (len(self.media) + 1, ext)
+        pm = self.pf.get("p_media_names", 0)
+        if pm and rng.random() < pm:
+            # opt-in (no draw without the key): part names as packaging libraries really write them.  A part called "company
+            # logo.png" is stored by OPC-conformant writers as the zip item `company%20logo.png` (percent-encoded ASCII stays
+            # encoded in the item name) and by others with the raw space; the relationship target is the same string.  The
+            # item name and the target are compared as they are: nothing is decoded, normalised or case-folded.
+            stem = rng.choice(["company%20logo", "my picture", "100%25", "100%", "a%2Fb", "a%2fb", "%41", "%zz", "a%2520b", "%C3%A9t%C3%A9", "\u00e9t\u00e9", "e\u0301te\u0301", "\u56fe\u7247",
+                               "IMAGE", "Image", "pic+1", "a#b", "a?b=c", "a&b", "a;b", "x.y", "sub%20dir/pic", "sub dir/pic", "Sub/Pic", "[1]", "%5B1%5D", "~a", "a'b", "-"])
+            name = "media/%s%d.%s" % (stem, len(self.media) + 1, ext)
+            self.hit("media-name-odd")
+            if "%" in stem:
+                self.hit("media-name-percent")
         data = bytes(rng.randrange(256) for _ in range(rng.choice([0, 1, 2, 3, 4, 5, 17, 64])))
         if self.pf.get("big_media", 0) > 0 and rng.random() < self.pf["big_media"]:
             data = big_bytes(rng, self.pf.get("big_media_max", 300000))
@@ -611,8 +719,30 @@ class DocGen:
             return ""
         return rng.choice([" ", " ", "  "]).join(rng.choice(self.MCE_PREFIXES) for _ in range(rng.choice([1, 1, 1, 2, 3])))
 
+    def sdt_hits(self, level, wrappers):
+        """feature counts for content controls built by sdt_around: level, and whether w:sdtPr says check box / placeholder"""
+        for w in wrappers:
+            self.hit("sdt-" + level)
+            for c in w[2]:
+                if c[0] == "w:sdtPr":
+                    for g in c[2]:
+                        if g[0] == "wordml:checkbox":
+                            self.hit("sdt-%s-checkbox" % level)
+                        if g[0] == "w:showingPlcHdr":
+                            self.hit("sdt-%s-placeholder" % level)
+
     def sdt(self, depth, inline):
         rng = self.rng
+        rich = self.pf.get("p_sdt_rich", 0)
+        if rich and rng.random() < rich:
+            # opt-in (no draw without the key): a control with real content AND a full w:sdtPr - check box controls hold their
+            # glyph run, unfilled controls their prompt; one control may hold several runs / blocks
+            content = []
+            for _ in range(rng.choice([1, 1, 2])):
+                content.extend(self.inline(depth + 1) if inline else [self.block(depth + 1)])
+            w = sdt_around(rng, content, checkbox=0.2)
+            self.sdt_hits("run" if inline else "block", [w])
+            return w
         if self.p("p_checkbox"):
             cb = []
             if rng.random() < 0.7:
@@ -789,6 +919,13 @@ class DocGen:
                 # table (only the leading block is) — it stays where it is, in tbody
                 trpr.append(el("w:tblHeader"))
                 self.hit("late-header-row")
+            psdt = self.pf.get("p_table_sdt", 0)
+            if psdt:
+                # opt-in (no draw without the key): cell-level content controls (w:tr > w:sdt > w:sdtContent > w:tc), some of them
+                # check boxes, some still showing their placeholder
+                wrapped = []
+                cells = sdt_wrap_some(rng, cells, psdt, checkbox=0.3, hits=wrapped)
+                self.sdt_hits("cell", wrapped)
             row_children = ([el("w:trPr", [], trpr)] if (trpr or rng.random() < 0.3) else []) + cells
             # optional profile key p_table_junk (no draw without it): things that are legal inside w:tbl / w:tr but are
             # neither rows nor cells for the reader (a bookmark start between cells, a paragraph-level run of content) ->
@@ -802,6 +939,11 @@ class DocGen:
             if junk and rng.random() < junk / 2:
                 rows.append(self.table_junk(depth))
                 self.hit("non-row-in-table")
+        if self.pf.get("p_table_sdt", 0):
+            # row-level content controls (w:tbl > w:sdt > w:sdtContent > w:tr)
+            wrapped = []
+            rows = sdt_wrap_some(rng, rows, self.pf["p_table_sdt"] / 2, checkbox=0.15, hits=wrapped)
+            self.sdt_hits("row", wrapped)
         tblpr = []
         if self.p("p_tstyle"):
             if self.p("p_dangling_style"):
